@@ -1016,9 +1016,17 @@ def _tag_sites(P, rep, F, rule):
             a1_ok = a1.get("k") == "MemberExpr" and astq.is_this_field(P, a1, "tag")
             if not a1_ok and a1.get("k") == "DeclRefExpr" and P.d(a1["r"]).get("storage") == "local":
                 # a local holding the feature's tag: initialised from the "tag" entry of the file
-                for v_ in G.walk():
-                    if v_.get("k") == "VarDecl" and v_.get("r") == a1["r"] and v_.get("c"):
-                        a1_ok = any(y.get("k") == "StringLiteral" and y.get("v") == "tag" for y in G.walk(v_["c"][0]))
+                # (directly, or through other locals: `tag = user_tag.empty() ? "<type>" : user_tag`)
+                inits_ = {v_["r"]: v_["c"][0] for v_ in G.walk() if v_.get("k") == "VarDecl" and v_.get("c")}
+                seen_, todo_ = set(), [a1["r"]]
+                while todo_:
+                    k_ = todo_.pop()
+                    if k_ in seen_ or k_ not in inits_:
+                        continue
+                    seen_.add(k_)
+                    if any(y.get("k") == "StringLiteral" and y.get("v") == "tag" for y in G.walk(inits_[k_])):
+                        a1_ok = True
+                    todo_ += [y["r"] for y in G.walk(inits_[k_]) if y.get("k") == "DeclRefExpr" and y.get("r") in inits_]
             if tgt_ok and a0_ok and a1_ok:
                 rep.ok(rule, "%s: tag_index = add_vector_unique(world->feature_tags, tag)" % f, G.nloc(c), G.qn)
             else:
